@@ -453,6 +453,8 @@ def _apply(op, a, t):
         if op == "maximum":
             return np.maximum(_f(a[0]), _f(a[1]))
         if op == "vec":
+            if any(isinstance(x, str) for x in a):
+                return list(a)  # a table of labels (np.array(["B", "A"])[k])
             return np.array([np.asarray(_f(x), dtype=float) for x in a], dtype=float)
         if op == "item":
             return np.asarray(a[0])[int(a[1])]
